@@ -83,7 +83,16 @@ def outreal : Handler := fun args impl =>
     { model := want, oracle := if impl = want then none else some s!"{s} connections x {n} real messages: {impl}" }
   | _ => unmodelled
 
-def handlersC11 : List (String × Handler) := [("out", out), ("outfault", outfault), ("outreal", outreal)]
-def handlersC14 : List (String × Handler) := [("xids", xids), ("conc", conc), ("conclookup", conc), ("concdhcp", conc), ("xtalk", conc)]
+/-- `outloop n seed`: n packet-ins answered by n packet-outs on one stream with a slow writer; each packet-out appears
+    on the wire as the encoding it had when it was submitted -/
+def outloop : Handler := fun args impl =>
+  match args.map natArg with
+  | [some n, some _] =>
+    let want := s!"ok {n}"
+    { model := want, oracle := if impl = want then none else some s!"{n} packet-ins answered by packet-outs: {impl}" }
+  | _ => unmodelled
+
+def handlersC11 : List (String × Handler) := [("out", out), ("outfault", outfault), ("outreal", outreal), ("outloop", outloop)]
+def handlersC14 : List (String × Handler) := [("xids", xids), ("conc", conc), ("conclookup", conc), ("concdhcp", conc), ("xtalk", conc), ("concparse", conc)]
 
 end OFV.Driver.Stream
